@@ -316,6 +316,11 @@ type ScramServer struct {
 	Lookup         func(user string) (Stored, bool)
 	NonceSuffix    string // server nonce part to append ("SrvNonce" if empty)
 	AdvertisedPlus bool   // optional: the server also advertised the -PLUS variant, so gs2 flag "y" is a downgrade (RFC 5802 section 6)
+	// FirstExt is appended to the server-first-message: optional extensions after the iteration count (RFC 5802 section 7:
+	// nonce "," salt "," iteration-count ["," extensions]), e.g. ",x-ext=1"; FirstPrefix is put in front of it (e.g. the
+	// mandatory extension "m=1," which a client that does not know it must refuse)
+	FirstExt    string
+	FirstPrefix string
 
 	cf          ClientFirst
 	cred        Stored
@@ -353,7 +358,7 @@ func (s *ScramServer) First(clientFirst []byte) (serverFirst []byte, err error) 
 		suffix = "SrvNonce"
 	}
 	s.cf, s.cred, s.state = cf, cred, 1
-	s.serverFirst = "r=" + cf.Nonce + suffix + ",s=" + b64.EncodeToString(cred.Salt) + ",i=" + strconv.Itoa(cred.Iter)
+	s.serverFirst = s.FirstPrefix + "r=" + cf.Nonce + suffix + ",s=" + b64.EncodeToString(cred.Salt) + ",i=" + strconv.Itoa(cred.Iter) + s.FirstExt
 	return []byte(s.serverFirst), nil
 }
 
